@@ -30,9 +30,29 @@ pub fn convert(f: &f::Layout) -> Result<s::Layout, String> {
     adjust_repeats(&mut res, &from_table, &alias_mappings, fm)?;
   }
   
+  // The mapper cannot work with a key that occurs twice in one trigger or one output
+  // (it would panic when the layout is installed), so reject such mappings here.
+  for sm in &res {
+    if let Some(k) = first_duplicate(&sm.from) {
+      return Err(format!("Key {} appears more than once in the \"from\" of the mapping from {:?} to {:?}", k, sm.from, sm.to));
+    }
+    if let Some(k) = first_duplicate(&sm.to) {
+      return Err(format!("Key {} appears more than once in the \"to\" of the mapping from {:?} to {:?}", k, sm.from, sm.to));
+    }
+  }
+  
   Ok(s::Layout {
     mappings: res
   })
+}
+
+fn first_duplicate(keys: &[KeyCode]) -> Option<KeyCode> {
+  for i in 0 .. keys.len() {
+    if keys[i+1 ..].contains(&keys[i]) {
+      return Some(keys[i]);
+    }
+  }
+  None
 }
 
 fn adjust_repeats<'a>(res: &mut Vec<s::Mapping>, from_table: &HashMap<FromSet, Vec<usize>>, alias_mappings: &'a HashMap<String, Vec<&'a f::AliasMapping>>, fm: &f::Mapping) -> Result<(), String> {
